@@ -520,7 +520,13 @@ def run(ctx):
         'followed by every sequence of length <= 2; %d further configurations (Timestamp/NaN-Timestamp/-inf/negative/empty bounds, absolute=None) on all sequences of '
         'length <= 3; random sequences of 6-30 ops with NaN-P1 / no-time / MeasurementDetails messages, restarts, return_timestamps=True, float t0. '
         'intersect: all %d x %d pairs of grid ranges (in place and copy) on every sequence of length <= %d, plus random pairs. make_absolute: once and twice. '
-        'parse: %d texts of the documented form x absolute argument, malformed / mutated texts, tuples. '
+        'parse: %d texts of the documented form x absolute argument (agreeing and conflicting), malformed / mutated texts, tuples and lists of 1-4 items, TimeRange objects. '
+        'argument forms: float, Python int, numpy float64/float32/int64, Timestamp, NaN Timestamp, None, +-inf, 0 in every spelling, mixed representations with absolute omitted / None / positional; '
+        't0 as Timestamp, float, int, numpy. large P1 times (2^24 s, 1e9 s, 1.3e9 s) with fractional bounds, absolute and relative. '
+        'histories on the same objects in one interpreter: intersect in both orders, in place and as a copy, then passes over the result AND both operands, restart and a second pass with other data, '
+        'copy/deepcopy, make_absolute twice and as a copy, parse(object), unrestricted ranges narrowed by intersect, set-up steps in mid-pass (those are compared with the MODEL only); '
+        'identity of results (in place = same object, otherwise a new one), operands / messages / constructor Timestamps unchanged after every call, '
+        'is_specified() and in_range_started() after every case, return_timestamps=True returning the message\'s own timestamps. '
         'A case is one protocol line; it is counted non-trivial when the implementation returned both True and False in it.'
         % (L, k, len(EXOTIC), len(iranges), len(iranges), 4 if ctx.thorough else 3, len(texts)))
     ctx.coverage['exhaustive'] = True
